@@ -90,6 +90,22 @@ def scenario_for(seed, index, tier):
         return make(proto, [proto], [ops], behs, refuse, 0, 0, rng,
                     enumerated=True)
     proto = common.pick_proto(rng, sup)
+    if rng.random() < 0.12:
+        # hand-over stress: a listener/handler reconnects and lingers while
+        # a user thread disconnects and reconnects around the dying thread
+        via_listener = rng.random() < 0.5
+        first = rng.choice(['ldisc', 'pdisc']) if via_listener else \
+            rng.choice(['rst', 'cut', 'close_accept'])
+        ops = ['connect', 'nap', rng.choice(['disc', 'disc_imm']), 'connect',
+               rng.choice(['sleep', 'nap', 'wait_quiet']), 'connect',
+               'wait_play']
+        if rng.random() < 0.5:
+            ops += [rng.choice(['status', 'connect', 'disc']), 'wait_quiet']
+        sc = make(proto, [proto], [ops], [first] + ['long'] * 7, [],
+                  1 if via_listener else 0, 0 if via_listener else 1, rng)
+        sc['linger_us'] = rng.choice([300000, 1500000, 3000000])
+        sc['family'] = 'handover-stress'
+        return sc
     allowed = [proto]
     if rng.random() < 0.15:
         other = rng.choice([p for p in sup if p != proto])
@@ -104,14 +120,22 @@ def scenario_for(seed, index, tier):
                                ['connect', 'wait_play'], ['status'],
                                ['status', 'wait_quiet'], ['disc'], ['disc'],
                                ['disc_imm'], ['wait_quiet'], ['sleep'],
-                               ['disc', 'connect', 'wait_play']])
+                               ['disc', 'connect', 'wait_play'],
+                               ['disc', 'connect', 'sleep', 'connect'],
+                               ['disc', 'connect', 'wait_quiet', 'connect',
+                                'wait_play']])
         threads.append(ops)
     behs = [rng.choice(BEHS) for _ in range(8)]
     refuse = [i for i in range(8) if rng.random() < 0.12]
     relisten = rng.choice([0, 0, 0, 1, 2])
     rehandler = rng.choice([0, 0, 0, 1, 2])
-    return make(proto, allowed, threads, behs, refuse, relisten, rehandler,
-                rng)
+    sc = make(proto, allowed, threads, behs, refuse, relisten, rehandler,
+              rng)
+    # a slow listener / handler: after reconnecting it lingers (virtual
+    # time) inside the callback, keeping the old networking thread alive
+    sc['linger_us'] = rng.choice([0, 0, 300000, 1500000]) \
+        if (relisten or rehandler) else 0
+    return sc
 
 
 def make(proto, allowed, threads, behs, refuse, relisten, rehandler, rng,
@@ -195,6 +219,8 @@ def execute(scenario, tape):
                 rec = call('connect', 'handler', conn.connect)
                 if not rec.r.ok:
                     raise rec.r.exc
+                if scenario.get('linger_us'):
+                    w.sleep(scenario['linger_us'])
 
         def on_exit():
             st['exits'] += 1
@@ -214,6 +240,8 @@ def execute(scenario, tape):
                 rec = call('connect', 'listener', conn.connect)
                 if not rec.r.ok:
                     raise rec.r.exc
+                if scenario.get('linger_us'):
+                    w.sleep(scenario['linger_us'])
                 raise IgnorePacket
 
         def on_play_disconnect(pkt):
@@ -222,6 +250,8 @@ def execute(scenario, tape):
                 rec = call('connect', 'listener', conn.connect)
                 if not rec.r.ok:
                     raise rec.r.exc
+                if scenario.get('linger_us'):
+                    w.sleep(scenario['linger_us'])
         if scenario['relisten']:
             conn.register_packet_listener(
                 on_login_disconnect, clientbound.login.DisconnectPacket,
@@ -328,6 +358,8 @@ def execute(scenario, tape):
                         sim.log('ret', ('wait_quiet', quiet()))
                     elif op == 'sleep':
                         w.sleep(700000)
+                    elif op == 'nap':
+                        w.sleep(100000)
                 st['done_threads'] += 1
             return run
 
@@ -722,7 +754,7 @@ def shrink_scenario(sc):
                     del c['threads'][k]
                 if c['threads']:
                     yield c
-    for key in ('relisten', 'rehandler', 'queue_extra'):
+    for key in ('relisten', 'rehandler', 'queue_extra', 'linger_us'):
         if sc.get(key):
             c = copy.deepcopy(sc)
             c[key] = 0
